@@ -320,6 +320,11 @@ class RunMonitor:
         if "C17" in self.want and record and self.P.mode == "det" and self.evaluated[b] > 1:
             self.c("C17.repeat_evals")
             carry = self.last_filter_carry.get(b)
+            prev = self.calls[-2] if len(self.calls) >= 2 else None
+            if ev and prev is not None and prev.get("u") is not None and np.array_equal(prev["u"], u) and prev.get("phase") == "search" and ev.get("phase") == "search":
+                # (two search steps in a row at the same point: happens on the unchanged tree as well - part of the
+                # open finding - so it is counted, not keyed separately)
+                self.c("C17.consecutive_search_repeats")
             if carry is not None and carry["was_logged"]:
                 self.v("C17/no-repeat-eval-via-unfiltered-candidate", u=u, site=carry["site"], times=self.evaluated[b])
             else:
@@ -664,13 +669,16 @@ class RunMonitor:
                     if o["accelerate_mesh"] and st["iter"] > o["accelerate_mesh_steps"]:
                         # historic improvement, recomputed
                         hist = None
-                        if det:
+                        if det or float(o["improvement_quantile"]) == 0.5:
+                            # with the default quantile 0.5 the documented improvement is f_base - f_incumbent
+                            # (the SD term vanishes): recomputed from the history record and the incumbent estimate
+                            # BADS holds now, in deterministic AND noisy modes
                             try:
                                 fb = float(b.iteration_history.get("fval")[st["iter"] - int(o["accelerate_mesh_steps"])])
                                 hist = fb - float(b.fval)
                             except Exception:
                                 hist = None
-                        elif extra:
+                        if hist is None and extra:
                             hist = extra[-1][1]
                         if hist is None:
                             exp = [k0 - 1, k0 - 2]
@@ -1076,6 +1084,8 @@ class RunMonitor:
                 g = out[0]
                 mon.c("C15.local_fit_exits")
                 mon._check_gp_holds_selected_set(g, refit_flag)
+                if refit_flag and out[1] != -2:
+                    mon._check_metric_is_gp_lengthscale(g)
                 if refit_flag:
                     mon.c("C15.local_refits")
                 mon._check_training_set("local_gp_fitting-exit", g.X, g.y, g.s2 if function_logger.noise_flag else None, variance=True)
@@ -1133,6 +1143,21 @@ class RunMonitor:
             gs = None if g.s2 is None else np.asarray(g.s2).reshape(-1)
             if gs is None or gs.shape != S.reshape(-1).shape or not np.array_equal(gs, S.reshape(-1), equal_nan=True):
                 self.v("C15/gp-noise-differs-from-selected-neighbours", refit=bool(refit_flag))
+
+    @safe
+    def _check_metric_is_gp_lengthscale(self, g):
+        """after a successful hyper-parameter refit the metric used by the next neighbour selections
+        (temporary_data['len_scale']) must be the GP's OWN fitted length scales"""
+        hyp = g.get_hyperparameters()
+        if len(hyp) != 1 or "covariance_log_lengthscale" not in hyp[0]:
+            return
+        ls = np.exp(np.asarray(hyp[0]["covariance_log_lengthscale"], float)).ravel()
+        if ls.size <= 1:
+            return
+        got = np.asarray(g.temporary_data.get("len_scale"), float).ravel()
+        self.c("C15.metric_vs_gp_lengthscale_checks")
+        if got.shape != ls.shape or not np.allclose(got, ls, rtol=1e-10, atol=0):
+            self.v("C15/selection-metric-not-the-gp-lengthscales", metric=got, gp_lengthscales=ls)
 
     def _log_index(self):
         fl = self.fl
